@@ -592,12 +592,13 @@ type SpecFile struct {
 	Preds     map[string]*Pred
 	Lemmas    []*Lemma
 	Ghosts    []*GhostField
+	GhostVars map[string]string // ghost global variables: name -> type (mathint, bool, intmap)
 	UFuncs    map[string]*UFunc
 	Bounded   []*BoundedCheck
 }
 
 func NewSpecFile(pkg string) *SpecFile {
-	return &SpecFile{PkgPath: pkg, Contracts: map[string]*Contract{}, Preds: map[string]*Pred{}, UFuncs: map[string]*UFunc{}}
+	return &SpecFile{PkgPath: pkg, Contracts: map[string]*Contract{}, Preds: map[string]*Pred{}, UFuncs: map[string]*UFunc{}, GhostVars: map[string]string{}}
 }
 
 var clauseKeywords = map[string]bool{
@@ -832,7 +833,10 @@ func (sf *SpecFile) ParseSpecText(file, text string) error {
 			sf.Lemmas = append(sf.Lemmas, lm)
 		case "ghost":
 			f := strings.Fields(rc.rest)
-			if len(f) >= 3 && f[0] == "field" {
+			if len(f) >= 3 && f[0] == "var" {
+				// ghost var name type : a ghost global variable
+				sf.GhostVars[f[1]] = f[2]
+			} else if len(f) >= 3 && f[0] == "field" {
 				// ghost field Struct.name Type
 				ld := strings.LastIndex(f[1], ".")
 				if ld <= 0 {
